@@ -365,7 +365,9 @@ func (c *ExecCtx) assignTo(st *State, lhs ast.Expr, v Val) {
 			idx := c.eval(st, x.Index)
 			c.boundsCheck(st, idx.T, slLen(base.T), x.Pos(), "index (write)")
 			nv := mkSlice(base.T.Sort, Store(slArr(base.T), idx.T, c.convert(st, v, bt.Elem())), slLen(base.T), slCap(base.T), slNil(base.T))
+			u.elemWrite++
 			c.assignTo(st, x.X, Val{nv, base.Ty})
+			u.elemWrite--
 		case *types.Array:
 			idx := c.eval(st, x.Index)
 			c.boundsCheck(st, idx.T, IntLit(bt.Len()), x.Pos(), "array index (write)")
@@ -744,7 +746,7 @@ func (c *ExecCtx) loopSpecFor(node ast.Node, rangeX ast.Expr) (*LoopSpec, string
 func (c *ExecCtx) dryRun(st *State, body func(*State) []*State) *recorder {
 	u := c.u
 	saved := u.recording
-	rec := &recorder{vars: map[types.Object]bool{}, heaps: map[string]bool{}, ghost: map[string]bool{}, refs: map[string][]*Term{}, whole: map[string]bool{}, startSym: u.eng.nsym}
+	rec := &recorder{vars: map[types.Object]bool{}, heaps: map[string]bool{}, ghost: map[string]bool{}, refs: map[string][]*Term{}, whole: map[string]bool{}, startSym: u.eng.nsym, elemOnly: map[types.Object]bool{}, fullVar: map[types.Object]bool{}}
 	u.recording = rec
 	u.quiet++
 	savedLoops := c.loops
@@ -777,13 +779,27 @@ func (c *ExecCtx) dryRun(st *State, body func(*State) []*State) *recorder {
 				saved.whole[k] = true
 			}
 		}
+		for k := range rec.elemOnly {
+			if saved.elemOnly != nil {
+				saved.elemOnly[k] = true
+			}
+		}
+		for k := range rec.fullVar {
+			if saved.fullVar != nil {
+				saved.fullVar[k] = true
+			}
+		}
 	}
 	return rec
 }
 
 // havocRec replaces everything recorded as modified by fresh values.
+var allocAtEntry = map[*State]*Term{}
+
 func (c *ExecCtx) havocRec(st *State, rec *recorder) {
 	u := c.u
+	allocAtEntry[st] = u.heapGet(st, "$alloc", ArraySort(SInt, SBool))
+	defer delete(allocAtEntry, st)
 	for obj := range rec.vars {
 		cur, ok := st.vars[obj]
 		if !ok {
@@ -795,6 +811,11 @@ func (c *ExecCtx) havocRec(st *State, rec *recorder) {
 		t := u.fresh("h_"+obj.Name(), cur.Sort)
 		st.vars[obj] = t
 		c.typeFacts(st, t, obj.Type())
+		if rec.elemOnly[obj] && !rec.fullVar[obj] {
+			if _, ok := unalias(obj.Type()).Underlying().(*types.Slice); ok {
+				st.assumeT(And(Eq(slLen(t), slLen(cur)), Eq(slCap(t), slCap(cur)), Eq(slNil(t), slNil(cur))))
+			}
+		}
 	}
 	for h := range rec.heaps {
 		cur, ok := st.heaps[h]
@@ -826,6 +847,40 @@ func (c *ExecCtx) havocRec(st *State, rec *recorder) {
 			}
 			st.heaps[h] = nh
 			continue
+		}
+		// writes only to loop-invariant refs or to objects allocated inside
+		// the loop: everything allocated before the loop (other than the
+		// invariant refs) is unchanged
+		if refs, ok := rec.refs[h]; ok && !rec.whole[h] && len(refs) > 0 && len(refs) <= 16 {
+			var inv []*Term
+			okAll := true
+			for _, r := range refs {
+				if allInvariant([]*Term{r}, rec.startSym) {
+					inv = append(inv, r)
+				} else if !(r.Op == "sym" && strings.HasPrefix(r.Name, "new_")) {
+					okAll = false
+				}
+			}
+			if okAll && len(inv) <= 6 {
+				if _, _, isArr := arrayParts(cur.Sort); isArr {
+					nh := u.fresh("hhf_"+h, cur.Sort)
+					al := st.heaps["$alloc"]
+					if pre, ok := allocAtEntry[st]; ok {
+						al = pre
+					}
+					if al == nil {
+						al = u.heapGet(st, "$alloc", ArraySort(SInt, SBool))
+					}
+					x := Sym("x!h", SInt)
+					cond := []*Term{Select(al, x)}
+					for _, r := range inv {
+						cond = append(cond, Ne(x, r))
+					}
+					st.assumeT(Forall([]*Term{x}, Imp(And(cond...), Eq(Select(nh, x), Select(cur, x))), []*Term{Select(nh, x)}))
+					st.heaps[h] = nh
+					continue
+				}
+			}
 		}
 		st.heaps[h] = u.fresh("hh_"+h, cur.Sort)
 	}
